@@ -688,6 +688,10 @@ func (m *metadataAPI) ReportLeader(ctx context.Context, req *proto.ReportLeaderO
 	}
 	m.mu.Unlock()
 
+	// Witnesses that have been removed from the ISR since they reported no
+	// longer count towards the quorum of in-sync followers.
+	failover.retainWitnesses(partition.inISR)
+
 	return failover.report(ctx, req.Replica)
 }
 
